@@ -2,6 +2,8 @@
    mir-reduce.h (found through -I$VERIF_REPO) on the cases read from stdin, one per line, and prints
    one result line per case, in the same format as ocaml/driver_c12.ml:
      enc <hex>               -> E <hex>
+     encf <fill> <hex>       -> E <hex>           (encoder whose fresh struct reduce_data is filled with <fill>:
+                                                   the bytes of buf behind buf_bound are an input of the experiment)
      dec <fx> <fill> <hex>   -> A <hex> | R          (fx is ignored: the real code is what it is)
      hash <seedhex> <hex>    -> H <decimal>
    "-" stands for the empty byte string.  Every struct reduce_data is allocated by an allocator that
@@ -115,9 +117,18 @@ int main (void) {
   while ((r = getline (&line, &cap, stdin)) > 0) {
     struct io io;
     memset (&io, 0, sizeof (io));
-    if (strncmp (line, "enc ", 4) == 0) {
+    if (strncmp (line, "enc ", 4) == 0 || strncmp (line, "encf ", 5) == 0) {
+      int off = 4;
       fill_byte = 0;
-      io.in = parse_hex (line + 4, &io.in_len);
+      if (line[3] == 'f') {
+        int o2 = 0;
+        if (sscanf (line + 5, "%d %n", &fill_byte, &o2) < 1) {
+          printf ("?\n");
+          continue;
+        }
+        off = 5 + o2;
+      }
+      io.in = parse_hex (line + off, &io.in_len);
       int ok = reduce_encode (&h_alloc, io_reader, io_writer, &io);
       if (ok)
         print_hex ("E", io.out, io.out_len);
